@@ -10,7 +10,7 @@ import vhelp
 
 NAME = "dart_lifetime_edge"
 ENGINE = "verus"
-PROPERTIES = {"C04": "Dart and JS attach, for every edge the analysis reports, an expression that retains that edge's own parameter (object, arena or lifetime-relevant struct fields)",
+PROPERTIES = {"C04": "Dart, JS and Kotlin attach, for every edge the analysis reports, an expression that retains that edge's own parameter (object, arena or lifetime-relevant struct fields)",
               "C15": "display_lifetime_edge's unreachable! arm is dead"}
 F = "tool/src/dart/mod.rs"
 
@@ -66,11 +66,35 @@ def build(tier):
         p.contract(f"        ensures {CANARY} r == expected(*edge),", ret_name="r")
         vf.add_piece(p, expected="display_lifetime_edge")
         vf.add("}\n")
+    # ---- Kotlin: KotlinFormatter::fmt_borrow
+    kt = Src("tool/src/kotlin/formatter.rs")
+    vf.add("""pub mod kotlin {
+use super::*;
+pub struct KotlinFormatter { pub x: u8 }
+impl KotlinFormatter {
+    #[verifier::external_body] pub fn fmt_param_name(&self, n: &ParamName) -> (r: ParamName) ensures r == *n { unimplemented!() } // keyword escaping only: same parameter
+}
+impl ParamName { pub fn to_string(&self) -> (r: ParamName) ensures r == *self { *self } }
+// kotlin declares option = false: lowering rejects Option<struct> parameters for it, so no optional struct edge exists
+pub open spec fn kotlin_edge_ok<'a>(e: LifetimeEdge<'a>) -> bool { match e.kind { LifetimeEdgeKind::StructLifetime(_, _, opt) => !opt, _ => true } }
+impl KotlinFormatter {
+""")
+    p = Piece(kt, kt.item("impl KotlinFormatter<'tcx>::fmt_borrow", "fn"))
+    p.sub("E6t", r"-> \(r: Cow<'a, str>\)", "-> (r: Retained)", count=1, why="tagged expression")
+    p.sub("E14", r"let LifetimeEdge \{\s*param_name,\s*kind: ty,\s*\.\.\s*\} = edge;", "let param_name = &edge.param_name; let ty = edge.kind;", count=1, why="struct pattern on a reference written as two field reads (kind is Copy)")
+    p.sub("E6t", r'format!\("listOf\(\{param_name\}\)"\)\.into\(\)', "Retained::param(&param_name)", count=1, why="`listOf(<param>)`: the parameter object")
+    p.sub("E6t", r'format!\("listOf\(\{param_name\}Mem\)"\)\.into\(\)', "Retained::arena(&param_name)", count=1, why="`listOf(<param>Mem)`: the native memory holding the converted slice")
+    p.sub("E6t", r'format!\("\{param_name\}\.\{lt\}Edges"\)\.into\(\)', "Retained::struct_fields(&param_name, lt, false)", count=1, why="`<param>.<lt>Edges`: the struct's edges for that lifetime")
+    p.fn("E5", rule_panics, why="panic! arm becomes an obligation")
+    p.fn("E5", __import__("rsrc").rule_asserts, why="assert! becomes an obligation (discharged from the precondition)")
+    p.contract(f"        requires kotlin_edge_ok(*edge),\n        ensures {CANARY} r == expected(*edge),", ret_name="r")
+    vf.add_piece(p, expected="fmt_borrow")
+    vf.add("}\n}\n")
     vf.add(vhelp.FOOTER)
     return vf
 
 
-CANARY_FUNCTIONS = ["display_lifetime_edge", "display_lifetime_edge"]
+CANARY_FUNCTIONS = ["display_lifetime_edge", "display_lifetime_edge", "fmt_borrow"]
 ASSUMPTIONS = [
     "E6t: the generated Dart expression carried as what it retains (parameter / `<param>Arena` / `_fieldsForLifetime<LT>` of the parameter, null-aware or not); to_uppercase only changes the case of the lifetime's name",
     "LifetimeEdgeKind is the verbatim definition (exactly three variants at the pinned commit); which edges exist is units borrow_edges / hir_transitivity",
